@@ -473,13 +473,20 @@ Usages(s, r) ==
 
 Root(s, r) == Done(s, 200, [min |-> 0, max |-> 39])
 
+\* Start-up synchronisation of the standard traits and resource classes: the
+\* standard vocabulary is a constant of this specification (StdClasses,
+\* StdTraits stand for all of it), so at this level Sync changes nothing and is
+\* idempotent; that the real tables contain every standard name with the
+\* fixed class identifiers after it is checked on the projection (std_ok).
+Sync(s, r) == Done(s, 200, NoBody)
+
 ---------------------------------------------------------------------------
 Ops == {"rp_create", "rp_update", "rp_delete", "rp_get",
         "inv_list", "inv_get", "inv_post", "inv_put", "inv_put_all", "inv_del", "inv_del_all",
         "rp_usages", "agg_get", "agg_put", "rp_traits_get", "rp_traits_put", "rp_traits_del",
         "rp_allocs", "trait_put", "trait_get", "trait_del", "traits_list",
         "rc_list", "rc_get", "rc_post", "rc_put", "rc_del",
-        "alloc_put", "alloc_post", "alloc_get", "alloc_del", "reshape", "usages", "root"}
+        "alloc_put", "alloc_post", "alloc_get", "alloc_del", "reshape", "usages", "root", "sync"}
 
 Apply(s, r) ==
   CASE r.op = "rp_create" -> RpCreate(s, r)
@@ -516,6 +523,7 @@ Apply(s, r) ==
     [] r.op = "reshape"   -> Reshape(s, r)
     [] r.op = "usages"    -> Usages(s, r)
     [] r.op = "root"      -> Root(s, r)
+    [] r.op = "sync"      -> Sync(s, r)
 
 AllocWriters     == {"alloc_put", "alloc_post", "reshape"}
 InventoryWriters == {"inv_post", "inv_put", "inv_put_all", "inv_del", "inv_del_all", "reshape", "rc_put"}
